@@ -14,6 +14,7 @@ import (
 	"math/rand"
 	"net"
 	"path/filepath"
+	"sync"
 	"time"
 
 	pb "github.com/jamf/regatta/regattapb"
@@ -65,10 +66,15 @@ func judgeTLS(r *ev.Run, w tlsWitness, accepted bool) {
 	case !o.judged():
 		r.Count("tls_unjudged_no_ca_configured", 1)
 		r.Distinct("unjudged_observations", fmt.Sprintf("%s %s %s: %s", where, o.class(), s.Class, acc(accepted)))
+		switch s.Class {
+		case "canonical", "no-certificate", "self-signed", "other-ca":
+			noteUnjudged(o.class()+" / "+s.Class, acc(accepted))
+		}
 		return
 	case s.Unjudged != "":
 		r.Count("tls_unjudged_variants", 1)
 		r.Distinct("unjudged_observations", fmt.Sprintf("%s %s %s: %s", where, o.class(), s.Class, acc(accepted)))
+		noteUnjudged(o.class()+" / "+s.Class, acc(accepted))
 		if accepted && !exp {
 			// the independent predicate says "not valid" and the server accepted: worth a note
 			r.Note(fmt.Sprintf("unjudged variant accepted although the reference predicate says no: %s %s %s", where, o.class(), s.Class))
@@ -88,6 +94,21 @@ func judgeTLS(r *ev.Run, w tlsWitness, accepted bool) {
 		r.Nontrivial(fmt.Sprintf("tls|%s|%s|%s|%s|%s|%v|%v", where, o.class(), s.Class, w.TLSMax, s.CN, s.DNS, s.IPs))
 		r.Count("near_miss_certificates", 1)
 	}
+}
+
+// unjudged outcomes (recorded in the evidence, never a verdict)
+var (
+	unjMu sync.Mutex
+	unj   = map[string]string{}
+)
+
+func noteUnjudged(key, outcome string) {
+	unjMu.Lock()
+	if prev, ok := unj[key]; ok && prev != outcome {
+		outcome = "mixed"
+	}
+	unj[key] = outcome
+	unjMu.Unlock()
 }
 
 func acc(b bool) string {
